@@ -46,7 +46,9 @@ ECHO_LINES = ['units metal', 'atom_style atomic', 'boundary p p p', 'read_data a
               'thermo_modify format float %.13e', 'restart 500 a.restart b.restart', '  # indented comment', 'mass 1 26.98',
               'neighbor 2.0 bin', 'fix 2 all box/relax aniso 0.0', 'variable s equal "step*dt"', 'region box block 0 1 0 1 0 1',
               'change_box all triclinic', 'write_restart final.restart', 'read_restart a.restart', 'reset_timestep 0',
-              'compute pe all pe/atom', 'min_modify dmax 0.01', 'log none', 'echo both']
+              'compute pe all pe/atom', 'min_modify dmax 0.01', 'log none', 'echo both',
+              # input scripts are UTF-8 text: comments, labels and paths with characters beyond ASCII are echoed as they are
+              '# a = 4.05 Å, ΔT = ±5 K', 'read_data /home/rené/données/atom.dat', 'print "σ_xx = 1.5 GPa → relaxed"', '# 緩和計算']
 
 WARNINGS = ['WARNING: Using a manybody potential with bonds/angles/dihedrals and special_bond exclusions (src/pair.cpp:243)',
             'WARNING: No fixes with time integration, atoms won\'t move (src/verlet.cpp:60)',
